@@ -435,3 +435,12 @@ Theorem C03_peek_live_reset : forall S w ops r n s' d e bug,
   e <> EWouldBlock.
 Proof. exact recv_peek_live_reset. Qed.
 Print Assumptions C03_peek_live_reset.
+
+(** Crypto streams hold no buffers: CRYPTO frames are pushed with a nil doneCb, so in every
+    crypto history nothing was ever released and no queued entry carries a callback — the
+    manager's Drop / Finish can neither recycle a buffer twice nor leak one. *)
+Theorem C03_crypto_no_buffers : forall S ops c,
+  Forall cvalid ops -> csrun S crun_init ops = Some c ->
+  fired (c_sorter (cr_st c)) = [] /\ live (queue (c_sorter (cr_st c))) = [].
+Proof. exact crypto_no_buffers. Qed.
+Print Assumptions C03_crypto_no_buffers.
